@@ -163,10 +163,14 @@ func genBatchWalk(r *rand.Rand, n int) []Step {
 		// scripted corner: a two-hop exact-in request with a tight minimum shares a block with a request in the OPPOSITE direction on its
 		// first hop's pool, placed before it, and the price of its SECOND hop's pool moves against it after it was accepted: the end
 		// blocker tries the two as a pair, one succeeds, the other fails half way (on its second hop)
-		for k := 0; k < 2; k++ {
+		for k := 0; k < 3; k++ {
 			// (the end blocker settles the opposite pair first, whatever the order of the other requests: the price of the second hop's
 			// pool is therefore moved at TRANSACTION time, by a single-sided join placed after the request was accepted)
-			if r.Intn(2) == 0 {
+			if k == 0 { // first hop through the ORACLE pool 3 (the pair is ranked by the pool's stacked slippage)
+				st = append(st, Step{"a": "swapIn", "u": "u3", "p": float64(3), "din": "uusdc", "sz": pick(r, "s2", "s3"), "limit": "loose"},
+					Step{"a": "swapIn", "u": "u2", "route": []any{float64(3), float64(1)}, "din": "uusdt", "sz": pick(r, "s1", "s2"), "limit": "tight", "rcpt": pick(r, "", "u4")},
+					Step{"a": "join", "u": "u1", "p": float64(1), "sz": pick(r, "s3", "s2"), "mode": "single", "d": "uusdc"})
+			} else if r.Intn(2) == 0 {
 				st = append(st, Step{"a": "swapIn", "u": "u3", "p": float64(1), "din": "uusdc", "sz": pick(r, "s2", "s3"), "limit": "loose"},
 					Step{"a": "swapIn", "u": "u2", "route": []any{float64(1), float64(2)}, "din": "uatom", "sz": pick(r, "s1", "s2"), "limit": "tight", "rcpt": pick(r, "", "u4")},
 					Step{"a": "join", "u": "u1", "p": float64(2), "sz": pick(r, "s3", "s2"), "mode": "single", "d": "uusdc"})
